@@ -43,7 +43,15 @@ type Contract struct {
 	Bound    bool
 }
 
+type TypeInv struct {
+	Pkg    string
+	Type   string
+	Props  []string
+	Clause *Clause
+}
+
 type SpecFile struct {
+	TypeInvs  []*TypeInv
 	Contracts []*Contract
 	Lemmas    []*Lemma
 	Defs      map[string]*SpecDef
@@ -160,6 +168,32 @@ func parseSpecFile(path, pkgPath string, sf *SpecFile) error {
 					kw, text string
 					line     int
 				}{"ensures", fs[2], i + 1}
+			case "typeinv":
+				// typeinv <Type> [props C02 ...] <expr over self>
+				toks := strings.Fields(rest)
+				if len(toks) < 2 {
+					return fmt.Errorf("%s:%d: bad typeinv", path, i+1)
+				}
+				ti := &TypeInv{Pkg: pkgPath, Type: toks[0]}
+				rem := strings.TrimSpace(strings.TrimPrefix(rest, toks[0]))
+				if strings.HasPrefix(rem, "props ") {
+					rem = strings.TrimPrefix(rem, "props ")
+					for {
+						f := strings.Fields(rem)
+						if len(f) == 0 || !strings.HasPrefix(f[0], "C") || len(f[0]) > 4 {
+							break
+						}
+						ti.Props = append(ti.Props, f[0])
+						rem = strings.TrimSpace(strings.TrimPrefix(rem, f[0]))
+					}
+				}
+				e, err := parseExpr(rem)
+				if err != nil {
+					return fmt.Errorf("%s:%d: %v", path, i+1, err)
+				}
+				ti.Clause = &Clause{Kind: "typeinv", Expr: e, Text: rem, File: path, Line: i + 1}
+				sf.TypeInvs = append(sf.TypeInvs, ti)
+				cur = nil
 			case "spec":
 				// spec name(a, b) = expr
 				eq := strings.Index(rest, "=")
